@@ -2,7 +2,7 @@
 import itertools
 from .. import sx as SX
 from ..facts import AnalysisBroken
-from ..kabs import Interp, Obj, Unsupported
+from ..kabs import Thrown, Interp, Obj, Unsupported
 from ..ktry import Escape
 
 EXPLANATION = (
@@ -91,6 +91,41 @@ def run(prog, chk):
             return it.call_fn(f, args), it
         except Unsupported as e:
             raise AnalysisBroken('abstract evaluation of %s: %s' % (f.short, e))
+    # parse: a finite family of version spellings against the documented reading (optional `v`, up to three dot-separated decimal
+    # components from the start, missing components are 0, anything after them is ignored, no component → unparsable, a component
+    # that does not fit an int → unparsable as a whole)
+    import re as _re
+    if True:
+
+        def ref(v):
+            if v.startswith('v'):
+                v = v[1:]
+            m = _re.match(r'(\d+)(?:\.(\d+))?(?:\.(\d+))?', v)
+            if not m:
+                return (False, 0, 0, 0)
+            comps = [int(x) if x is not None else 0 for x in m.groups()]
+            if any(c >= 2 ** 31 for c in comps):
+                return (False, 0, 0, 0)
+            return (True,) + tuple(comps)
+        SPELL = ['1.2.3', 'v1.2.3', '0.0.0', '10.20.30', '1.2', 'v7', '1', '', 'v', 'abc', 'v.1.2', '1..2', '1.2.3.4', '1.2.3-rc1', '1.2.3+build5', '01.002.0003', '1.2.x',
+                 '99999999999.0.0', '1.99999999999.0', '1.2.99999999999', '2147483647.0.0', '2147483648.0.0', ' 1.2.3', '1.2.3 ', '1.-2.3', 'vv1.2.3', '1.2.', '.1.2']
+        badp = []
+        for v in SPELL:
+            it = Interp(prog, {})
+            try:
+                got = it.call_fn(parse, [v])
+            except Thrown:
+                badp.append('%r → an exception escapes parseSemVer' % v)
+                continue
+            except Unsupported as e_:
+                raise AnalysisBroken('abstract evaluation of parseSemVer(%r): %s' % (v, e_))
+            want = ref(v)
+            g_ = (bool(got.get('valid')),) + ((got.get('major'), got.get('minor'), got.get('patch')) if got.get('valid') else (0, 0, 0)) if isinstance(got, Obj) else None
+            if g_ != want:
+                badp.append('%r → %s, documented %s' % (v, g_, want))
+        chk.extra['version_spellings'] = len(SPELL)
+        chk.ob('R20.1', parse, parse.ln, not badp, 'parseSemVer reads %d version spellings (prefix, missing components, suffixes, huge numbers, garbage) as documented; mismatches: %s' % (len(SPELL), badp[:4]),
+               key='parse-table')
     # compare
     bad = []
     for c, l, vc, vl, o in states:
